@@ -167,6 +167,10 @@ static volatile int in_mudlib_error_handler = 0;
 /* the limit bits of the error the mudlib error handler is running for: an error raised by the handler itself
  * goes straight to the receiving context and must not lose them (the handler may have completed a catch()) */
 static volatile int handler_limit_state = 0;
+/* the error context that was current when the master's error handler was entered: an error raised inside the
+ * handler and delivered to THAT context abandons the handler; one delivered to a newer context (a catch() or a
+ * safe apply made by the handler itself) does not, the handler goes on */
+static error_context_t *mudlib_error_handler_context = 0;
 
 static void debug_message_with_location (const char *err) {
   if (current_object && current_prog)
@@ -248,8 +252,11 @@ void error_handler (const char *err) {
           debug_message ("{}\t***** error in mudlib error handler (caught)");
           debug_message_with_location (err);
           dump_trace (g_trace_flag);
-          in_mudlib_error_handler = 0;
-          set_error_state (handler_limit_state);
+          if (current_error_context == mudlib_error_handler_context)
+            {
+              in_mudlib_error_handler = 0;
+              set_error_state (handler_limit_state);
+            }
         }
       else
         {
@@ -259,6 +266,7 @@ void error_handler (const char *err) {
 
           handler_limit_state = limit_state;
           in_mudlib_error_handler = 1;
+          mudlib_error_handler_context = current_error_context;
           mudlib_error_handler (err, 1);
           in_mudlib_error_handler = 0;
           set_error_state (limit_state);
@@ -296,8 +304,11 @@ void error_handler (const char *err) {
       debug_message ("{}\t***** error in mudlib error handler");
       debug_message_with_location (err);
       dump_trace (g_trace_flag);
-      in_mudlib_error_handler = 0;
-      set_error_state (handler_limit_state);
+      if (current_error_context == mudlib_error_handler_context)
+        {
+          in_mudlib_error_handler = 0;
+          set_error_state (handler_limit_state);
+        }
     }
   else
     {
@@ -306,6 +317,7 @@ void error_handler (const char *err) {
 
       handler_limit_state = limit_state;
       in_mudlib_error_handler = 1;
+      mudlib_error_handler_context = current_error_context;
       in_error = 0;
       mudlib_error_handler (err, 0);
       in_error = 1;
